@@ -9,7 +9,7 @@
       generated ladder reads CPython's minimal text back into a lark-shaped tree whose CPython-style reading is the
       term (`group`, unbounded, from the `Prec` round-trip theorems and the chain/left-nest lemma);
     * the decision logic of the first-match class dispatch (`classify_*`), its agreement with Python's semantics under
-      the stated coding conventions (`classify_func_partial`) and concrete counter-examples without them.
+      the three conventions the repaired code still relies on (`classify_func_partial`, `classify_*_agrees`).
 -/
 import Tranp.Lemmas.C02
 
@@ -153,16 +153,17 @@ theorem classify_var (root : AstPath.Entry) (p : AstPath.Path) (e : AstPath.Entr
     <;> cases hc : ((nameFeat root p e).tokens == c!"cls") <;> cases hs : ((nameFeat root p e).tokens == c!"self")
     <;> simp_all [NameClass.name]
 
-/-! ## classification: decision logic of `function_def` -/
+/-! ## classification: decision logic of `function_def` (code as of fix e2c3e47) -/
 
 theorem classify_classMethod (f : FuncFeat) :
-    funcClass f = .classMethod ↔ f.decorators.head? = some c!"classmethod" := by
+    funcClass f = .classMethod ↔ c!"classmethod" ∈ f.decorators := by
   rw [← isClassMethod_iff]
   simp only [funcClass]
   cases isClassMethod f <;> cases isConstructor f <;> cases isMethod f <;> cases isClosure f <;> simp
 
 theorem classify_constructor (f : FuncFeat) :
-    funcClass f = .constructor ↔ f.decorators.head? ≠ some c!"classmethod" ∧ f.name = c!"__init__" := by
+    funcClass f = .constructor ↔
+      c!"classmethod" ∉ f.decorators ∧ fromEnd f.tags 3 = some c!"class_def_raw" ∧ f.name = c!"__init__" := by
   have h1 := isClassMethod_iff f
   have h2 := isConstructor_iff f
   simp only [funcClass]
@@ -170,7 +171,8 @@ theorem classify_constructor (f : FuncFeat) :
 
 theorem classify_method (f : FuncFeat) :
     funcClass f = .method ↔
-      f.decorators.head? ≠ some c!"classmethod" ∧ f.name ≠ c!"__init__" ∧ f.firstParam = some c!"self" := by
+      c!"classmethod" ∉ f.decorators ∧ fromEnd f.tags 3 = some c!"class_def_raw" ∧ f.name ≠ c!"__init__"
+        ∧ f.firstParam = some c!"self" := by
   have hm := isMethod_iff f
   have hc := isConstructor_iff f
   have hcm := isClassMethod_iff f
@@ -178,9 +180,10 @@ theorem classify_method (f : FuncFeat) :
   cases h1 : isClassMethod f <;> cases h2 : isConstructor f <;> cases h3 : isMethod f <;> cases isClosure f
     <;> simp_all
 
+/-- a closure is any other def below a class or function that is not a statement of a class body -/
 theorem classify_closure (f : FuncFeat) :
     funcClass f = .closure ↔
-      f.decorators.head? ≠ some c!"classmethod" ∧ f.name ≠ c!"__init__" ∧ f.firstParam ≠ some c!"self"
+      c!"classmethod" ∉ f.decorators
       ∧ (f.tags.contains c!"class_def_raw" = true ∨ f.tags.contains c!"function_def_raw" = true)
       ∧ fromEnd f.tags 3 ≠ some c!"class_def_raw" := by
   have hm := isMethod_iff f
@@ -198,73 +201,124 @@ theorem classify_func_total (f : FuncFeat) :
       funcClass f ≠ .classMethod ∧ funcClass f ≠ .constructor ∧ funcClass f ≠ .method ∧ funcClass f ≠ .closure := by
   cases h : funcClass f <;> simp
 
-/-- **Agreement with Python's semantics under the coding conventions** (the part of the classification sentence that is
-    proved; the search generates conventional programs and checks the same equation on the real code). -/
-theorem classify_func_partial (f : FuncFeat) (hc : Conventional f) : funcClass f = pyFuncClass f := by
-  have key : ∀ (cm head init st self inC inF dir c fn : Bool),
-      (head = true → cm = true) → (cm = true → head = true) → (inC = true → dir = true) → (dir = true → inC = true) →
-      (inC = false → cm = false ∧ init = false ∧ self = false) →
-      (inC = true → cm = false → (self = true ↔ st = false)) →
-      (inF = true → (c || fn) = true ∧ dir = false) →
-      (inC = false → inF = false → c = false ∧ fn = false) →
-      (if head = true then FuncClass.classMethod
+/-- the propositional core: with the structural path facts and the three remaining conventions both classifications agree -/
+theorem classify_core (cm init st self inC inF dir c fn : Bool)
+    (h1 : dir = true → inC = true)
+    (h2 : inF = true → (c || fn) = true ∧ dir = false)
+    (h3 : inC = false → inF = false → c = false ∧ fn = false)
+    (c1 : cm = true → inC = true)
+    (c2 : inC = true → dir = true)
+    (c3 : inC = true → cm = false → init = false → (self = true ↔ st = false)) :
+    (if cm = true then FuncClass.classMethod
+      else if (dir && init) = true then .constructor
+      else if (dir && (!init && self)) = true then .method
+      else if (!(!c && !fn) && !(!(!c && !fn) && dir)) = true then .closure
+      else .function) =
+    (if inC = true then
+        if cm = true then FuncClass.classMethod
         else if init = true then .constructor
-        else if (!init && self) = true then .method
+        else if st = true then .function
+        else .method
+      else if inF = true then .closure
+      else .function) := by
+  revert h1 h2 h3 c1 c2 c3
+  cases cm <;> cases init <;> cases st <;> cases self <;> cases inC <;> cases inF <;> cases dir
+    <;> cases c <;> cases fn <;> simp
+
+/-- **Agreement with Python's scoping.** On every real `function_def` path (`PathShape`) tranp's kind is the kind Python's
+    semantics dictates, given the three conventions that the repaired `match_feature`s still rely on (`Conventional`):
+    `@classmethod` only inside classes, class functions directly in the class body, `self` first exactly on instance methods. -/
+theorem classify_func_partial (f : FuncFeat) (hs : PathShape f) (hc : Conventional f) : funcClass f = pyFuncClass f := by
+  obtain ⟨p1, p2, p3⟩ := path_facts f hs
+  simp only [funcClass, pyFuncClass, isClassMethod_eq, isConstructor_eq, isMethod_eq, isClosure_eq]
+  exact classify_core _ _ _ _ _ _ _ _ _ p1 p2 p3 hc.cmInClass hc.direct hc.selfRule
+
+/-- non-vacuity: an instance method is conventional and both sides say `Method` -/
+example :
+    let m : FuncFeat := ⟨[], c!"f", some c!"self", [c!"file_input", c!"class_def", c!"class_def_raw", c!"block", c!"function_def"]⟩
+    funcClass m = .method ∧ pyFuncClass m = .method := by decide +kernel
+
+/-! ### the three statements that were false before fix e2c3e47 (each with exactly the hypotheses it still needs) -/
+
+/-- constructors: only "class functions are statements of the class body" remains -/
+theorem classify_constructor_agrees (f : FuncFeat) (hs : PathShape f) (hd : inClass f = true → inClassBlock f = true) :
+    funcClass f = .constructor ↔ pyFuncClass f = .constructor := by
+  have key : ∀ (cm init st self inC inF dir c fn : Bool), (dir = true → inC = true) → (inC = true → dir = true) →
+      ((if cm = true then FuncClass.classMethod
+        else if (dir && init) = true then .constructor
+        else if (dir && (!init && self)) = true then .method
         else if (!(!c && !fn) && !(!(!c && !fn) && dir)) = true then .closure
-        else .function) =
+        else .function) = .constructor ↔
       (if inC = true then
           if cm = true then FuncClass.classMethod
           else if init = true then .constructor
           else if st = true then .function
           else .method
         else if inF = true then .closure
-        else .function) := by
-    intro cm head init st self inC inF dir c fn
-    cases cm <;> cases head <;> cases init <;> cases st <;> cases self <;> cases inC <;> cases inF <;> cases dir
+        else .function) = .constructor) := by
+    intro cm init st self inC inF dir c fn
+    cases cm <;> cases init <;> cases st <;> cases self <;> cases inC <;> cases inF <;> cases dir
       <;> cases c <;> cases fn <;> simp
-  simp only [funcClass, pyFuncClass, isMethod_eq, isClosure_eq]
-  exact key _ _ _ _ _ _ _ _ _ _ (isClassMethod_hasDeco f) hc.cmFirst hc.direct hc.directOnly hc.outside hc.selfRule
-    hc.hasScope hc.noScope
+  simp only [funcClass, pyFuncClass, isClassMethod_eq, isConstructor_eq, isMethod_eq, isClosure_eq]
+  exact key _ _ _ _ _ _ _ _ _ (path_facts f hs).1 hd
 
-/-- non-vacuity: an instance method, a class method, a constructor, a closure and a module function are conventional -/
-example :
-    let m : FuncFeat := ⟨[], c!"f", some c!"self", [c!"file_input", c!"class_def", c!"class_def_raw", c!"block", c!"function_def"]⟩
-    funcClass m = .method ∧ pyFuncClass m = .method := by decide +kernel
+/-- class methods: only "`@classmethod` is written inside classes" remains (its position in the decorator list no longer matters) -/
+theorem classify_classMethod_agrees (f : FuncFeat) (hcm : hasDeco c!"classmethod" f = true → inClass f = true) :
+    funcClass f = .classMethod ↔ pyFuncClass f = .classMethod := by
+  have key : ∀ (cm init st self inC inF dir c fn : Bool), (cm = true → inC = true) →
+      ((if cm = true then FuncClass.classMethod
+        else if (dir && init) = true then .constructor
+        else if (dir && (!init && self)) = true then .method
+        else if (!(!c && !fn) && !(!(!c && !fn) && dir)) = true then .closure
+        else .function) = .classMethod ↔
+      (if inC = true then
+          if cm = true then FuncClass.classMethod
+          else if init = true then .constructor
+          else if st = true then .function
+          else .method
+        else if inF = true then .closure
+        else .function) = .classMethod) := by
+    intro cm init st self inC inF dir c fn
+    cases cm <;> cases init <;> cases st <;> cases self <;> cases inC <;> cases inF <;> cases dir
+      <;> cases c <;> cases fn <;> simp
+  simp only [funcClass, pyFuncClass, isClassMethod_eq, isConstructor_eq, isMethod_eq, isClosure_eq]
+  exact key _ _ _ _ _ _ _ _ _ hcm
 
-/-! ### the classification sentence without the conventions: full statements and counter-examples -/
+/-- methods: whatever tranp calls `Method` is a non-class-method, non-`__init__` function of a class taking `self` — on
+    every real path, with no convention at all (the old witness, a closure taking `self`, is now a `Closure`) -/
+theorem classify_method_sound (f : FuncFeat) (hs : PathShape f) (h : funcClass f = .method) :
+    inClass f = true ∧ hasDeco c!"classmethod" f = false ∧ nameIsInit f = false ∧ selfFirst f = true := by
+  have key : ∀ (cm init self inC dir c fn : Bool), (dir = true → inC = true) →
+      (if cm = true then FuncClass.classMethod
+        else if (dir && init) = true then .constructor
+        else if (dir && (!init && self)) = true then .method
+        else if (!(!c && !fn) && !(!(!c && !fn) && dir)) = true then .closure
+        else .function) = .method →
+      inC = true ∧ cm = false ∧ init = false ∧ self = true := by
+    intro cm init self inC dir c fn
+    cases cm <;> cases init <;> cases self <;> cases inC <;> cases dir <;> cases c <;> cases fn <;> simp
+  simp only [funcClass, isClassMethod_eq, isConstructor_eq, isMethod_eq, isClosure_eq] at h
+  exact key _ _ _ _ _ _ _ (path_facts f hs).1 h
 
-/-- what the property asks of constructors: a constructor is exactly an `__init__` of a class -/
-def classify_constructor_statement : Prop :=
-  ∀ f : FuncFeat, funcClass f = .constructor ↔ (pyFuncClass f = .constructor)
-
-/-- a module-level function named `__init__` is classified `Constructor` (`Constructor.match_feature` looks at the name only) -/
-theorem classify_constructor_counterexample : ¬ classify_constructor_statement := by
-  intro h
-  have := h ⟨[], c!"__init__", none, [c!"file_input", c!"function_def"]⟩
-  revert this
+/-- the witnesses of the former counter-examples are classified as Python does (regression cases `corpus/C02/classify-*.json`) -/
+theorem classify_former_witnesses :
+    funcClass ⟨[], c!"__init__", none, [c!"file_input", c!"function_def"]⟩ = .function
+    ∧ funcClass ⟨[c!"other", c!"classmethod"], c!"f", some c!"cls",
+        [c!"file_input", c!"class_def", c!"class_def_raw", c!"block", c!"function_def"]⟩ = .classMethod
+    ∧ funcClass ⟨[], c!"inner", some c!"self",
+        [c!"file_input", c!"function_def", c!"function_def_raw", c!"block", c!"function_def"]⟩ = .closure := by
   decide +kernel
 
-def classify_classMethod_statement : Prop :=
-  ∀ f : FuncFeat, funcClass f = .classMethod ↔ (pyFuncClass f = .classMethod)
+/-- the full classification sentence with no side condition -/
+def classify_func_statement : Prop := ∀ f : FuncFeat, PathShape f → funcClass f = pyFuncClass f
 
-/-- `@other` above `@classmethod`: still a class method for Python, `Function` for tranp (`ClassMethod.match_feature`
-    inspects `decorators[0]` only) -/
-theorem classify_classMethod_counterexample : ¬ classify_classMethod_statement := by
+/-- it is still false where `match_feature` goes by a name: a function of a class whose first parameter is not called
+    `self` is a `Function` for tranp and an instance method for Python (naming convention of the transpiled dialect,
+    not filed as a defect; the search generates conventional programs) -/
+theorem classify_func_counterexample : ¬ classify_func_statement := by
   intro h
-  have := h ⟨[c!"other", c!"classmethod"], c!"f", some c!"cls",
-    [c!"file_input", c!"class_def", c!"class_def_raw", c!"block", c!"function_def"]⟩
-  revert this
-  decide +kernel
-
-def classify_method_statement : Prop :=
-  ∀ f : FuncFeat, funcClass f = .method ↔ (pyFuncClass f = .method)
-
-/-- a closure whose first parameter is called `self` is classified `Method` (`Method.match_feature` precedes
-    `Closure.match_feature` and does not look at the position) -/
-theorem classify_method_counterexample : ¬ classify_method_statement := by
-  intro h
-  have := h ⟨[], c!"inner", some c!"self",
-    [c!"file_input", c!"function_def", c!"function_def_raw", c!"block", c!"function_def"]⟩
+  have := h ⟨[], c!"f", some c!"this", [c!"file_input", c!"class_def", c!"class_def_raw", c!"block", c!"function_def"]⟩
+    (pathShape_of _ (by decide +kernel) c!"block" (by decide +kernel) (by decide +kernel))
   revert this
   decide +kernel
 
